@@ -26,7 +26,7 @@ RULE = ("programs = root kind {coro, gencoro, gen, agen} x chain of 0..N links, 
         "(await coro / await types.coroutine generator / await obj whose __await__ returns coro.__await__() / a generator / a plain iterator; "
         "async for / asend / __anext__ / athrow / aclose on a native async generator; yield from generator / gencoro / coroutine / "
         "coroutine wrapper / plain iterator / asend..aclose awaitables) x terminal {trap = yield in a types.coroutine function, bare yield, "
-        "non-frame leaf of kind {plain iterator, __bool__ False, __len__ 0, empty self-awaiting container}} x statement layout {plain, assign, multi-line, try/finally, with, with @contextmanager} x own suspension before/after "
+        "non-frame leaf of kind {plain iterator, __bool__ False, __len__ 0, empty self-awaiting container, hand-written full generator protocol (send/throw/close), collections.abc.Generator subclass, collections.abc.Coroutine subclass, iterator with gi_/cr_/ag_ attributes set to None, generator protocol + such attributes; awaited directly or handed out by another object's __await__; a leaf with a Python throw() must also be the object the probe is delivered to}} x statement layout {plain, assign, multi-line, try/finally, with, with @contextmanager} x own suspension before/after "
         "the delegation; every suspension point of each program plus unstarted, exhausted and closed roots and self-extraction of a running "
         "link; exhaustive over edge-kind paths of depth 1 and 2 (quick: every 4th depth-2 path), random chains of depth 2..4 (quick, 220 programs) / 2..6 (thorough, 9000 programs), 30% of them extracted at every suspension point on the way to the probed one (monitored run); asend(value) / athrow(exception carrying value) links whose value is itself stack-like (an async generator, a suspended coroutine, a suspended generator) for every parent kind at depth 1 and under every first edge at depth 2; long homogeneous chains built by recursion (60/101/130 await links, 55/70 coroutine-wrapper links, 40/55 asend links, 101/130 yield-from links, 120 mixed levels = 242 objects) probed at the innermost suspension; async-zip programs: a coroutine / types.coroutine generator / async generator parent (optionally under an outer coroutine) pulling alternately from 2..3 live sibling async generators through temporary __anext__ / asend / athrow awaitables (optionally with a coroutine level inside each sibling), monitored at every suspension point of the same run; and coroutine wrappers / asend / athrow awaitables of 2..3 alternating long-lived targets as extraction roots, each dropped while its target lives on. distinct = distinct (program, stop) descriptors; "
         "non-trivial = chain of >= 2 objects or with a leaf / wrapper / exhausted / running link")
@@ -57,7 +57,8 @@ CONFIG = dict(
 ASYNC_EDGES = ["await_coro", "await_gencoro", "await_wrap", "await_genret", "afor", "asend", "anext", "athrow", "aclose"]
 GEN_EDGES = ["yf_gen", "yf_gencoro", "yf_coro", "yf_wrap", "yf_asend", "yf_anext", "yf_athrow", "yf_aclose"]
 LAYOUTS = ["plain", "assign", "multi", "try", "with", "cmgen"]
-LEAFKINDS = ["plain", "bool", "len", "selfaw"]
+LEAFKINDS = ["plain", "bool", "len", "selfaw", "genproto", "genabc", "coroabc", "fakeattrs", "genprotofake"]
+SELFAWAIT = ("selfaw", "genproto", "genabc", "coroabc", "fakeattrs", "genprotofake")
 CHILD_KIND = {"await_coro": "coro", "await_wrap": "coro", "yf_coro": "coro", "yf_wrap": "coro",
               "await_gencoro": "gencoro", "yf_gencoro": "gencoro", "await_genret": "gen", "yf_gen": "gen"}
 AGEN_MODE = {"afor": "iter", "asend": "iter", "anext": "iter", "athrow": "athrow", "aclose": "aclose"}
@@ -103,7 +104,43 @@ class ItLen(It):                  # an empty mailbox: len() is the number of que
 class ItSelf(It):                 # empty user-defined awaitable container: awaiting it parks on itself
     def __len__(self): return 0
     def __await__(self): return self
-LEAF = {"plain": It, "bool": ItBool, "len": ItLen, "selfaw": ItSelf}
+import collections.abc as _abc
+class ItGenProto(It):             # hand-written trap with the full generator protocol (no ABC, no gi_* attributes)
+    def __await__(self): return self
+    def send(self, value): return self.__next__()
+    def throw(self, typ, val=None, tb=None):
+        raise typ if val is None else val
+    def close(self): pass
+class ItGenABC(_abc.Generator):   # subclass of collections.abc.Generator
+    def __init__(self): self.n = 0
+    def __await__(self): return self
+    def send(self, value):
+        self.n += 1
+        if self.n > 1: raise StopIteration
+        return "I"
+    def throw(self, typ, val=None, tb=None):
+        raise typ if val is None else val
+class ItCoroABC(_abc.Coroutine):  # collections.abc.Coroutine-like awaitable that is its own iterator
+    def __init__(self): self.n = 0
+    def __await__(self): return self
+    def __iter__(self): return self
+    def __next__(self): return self.send(None)
+    def send(self, value):
+        self.n += 1
+        if self.n > 1: raise StopIteration
+        return "I"
+    def throw(self, typ, val=None, tb=None):
+        raise typ if val is None else val
+class ItFakeAttrs(It):            # plain iterator with misleading introspection attributes
+    gi_frame = None; gi_yieldfrom = None; gi_running = False
+    cr_frame = None; cr_await = None; cr_running = False
+    ag_frame = None; ag_await = None; ag_running = False
+    def __await__(self): return self
+class ItGenProtoFake(ItGenProto): # full generator protocol + gi_frame / cr_frame set to None
+    gi_frame = None; gi_yieldfrom = None; gi_running = False
+    cr_frame = None; cr_await = None; cr_running = False
+LEAF = {"plain": It, "bool": ItBool, "len": ItLen, "selfaw": ItSelf, "genproto": ItGenProto, "genabc": ItGenABC,
+        "coroabc": ItCoroABC, "fakeattrs": ItFakeAttrs, "genprotofake": ItGenProtoFake}
 class AwWrap:
     def __init__(self, c): self.c = c
     def __await__(self): return self.c.__await__()
@@ -198,7 +235,7 @@ def build_source(desc):
                 body.append(f"t = trap(); S({i}, [('gen', t)]); c = t")
             elif term == "leaf":
                 lk = desc.get("leaf", "plain")
-                direct = (not is_async) or lk == "selfaw"
+                direct = (not is_async) or (lk in SELFAWAIT and desc.get("leafdirect", True))
                 body.append(f"it = LEAF[{lk!r}](); S({i}, [('leaf', it)]); c = " + ("it" if direct else "AwRet(it)"))
             elif term == "yield":
                 assert not is_async
@@ -477,6 +514,11 @@ def observe(stackscope, x, objs, thrower, take_tb=True, sl=None, extractor=None)
         if isinstance(tb, str):
             res["tb_problem"] = tb
         else:
+            # a leaf with a Python-level throw() receives the exception: its throw frame ends the traceback
+            if tb and expected_leaf is not None and tb[-1][0].f_code.co_name == "throw" \
+                    and tb[-1][0].f_locals.get("self") is expected_leaf:
+                tb = tb[:-1]
+                res["delivered_to_leaf"] = True
             res["tb"] = [[fid.get(id(f), 4999), ln] for f, ln in tb]
             if True in stacks:
                 fr = stacks[True].frames
@@ -805,7 +847,7 @@ VALKINDS = ["agen", "coro", "gen"]
 VAL_EDGES = ("asend", "athrow", "yf_asend", "yf_athrow")
 
 
-def program(root, edges, term, rng, layouts=None, prepost=None, leaf=None, vals=None):
+def program(root, edges, term, rng, layouts=None, prepost=None, leaf=None, vals=None, leafdirect=None):
     n = len(edges) + 1
     nodes = []
     for i in range(n):
@@ -821,6 +863,9 @@ def program(root, edges, term, rng, layouts=None, prepost=None, leaf=None, vals=
     prog = {"root": root, "links": links, "term": term, "nodes": nodes}
     if term == "leaf":
         prog["leaf"] = leaf or rng.choice(LEAFKINDS)
+        if prog["leaf"] in SELFAWAIT and prog["leaf"] != "selfaw":
+            # awaited directly (its own __await__) or handed out by another object's __await__
+            prog["leafdirect"] = bool(rng.random() < 0.5 if leafdirect is None else leafdirect)
     return prog
 
 
@@ -861,6 +906,8 @@ def make_inputs(tier, seed):
             for lay in LAYOUTS:
                 for pp in itertools.product([False, True], repeat=2):
                     for lk in (LEAFKINDS if term == "leaf" else [None]):
+                        if lk not in (None, "plain", "bool") and pp != (False, True):
+                            continue      # the other leaf kinds: one pre/post shape per layout
                         yield from with_stops(program(root, [], term, rng, layouts=[lay], prepost=[list(pp)], leaf=lk))
     # exhaustive edge kinds
     n2 = 0
@@ -873,7 +920,8 @@ def make_inputs(tier, seed):
                         continue        # quick: every 4th depth-2 path (rotating with the seed)
                 if d == 1 and term == "leaf":
                     for lk in LEAFKINDS:       # every way a chain can end in a non-frame leaf x every leaf kind
-                        yield from with_stops(program(root, edges, term, rng, leaf=lk))
+                        for ld in ((True, False) if (lk in SELFAWAIT and lk != "selfaw") else (None,)):
+                            yield from with_stops(program(root, edges, term, rng, leaf=lk, leafdirect=ld))
                     continue
                 reps = 2 if d == 1 else 1
                 for _ in range(reps):
